@@ -3,6 +3,7 @@ snapshots (observable / deep) and the incidence-integrity predicates of C01-C03.
 
 import copy
 import itertools
+import numbers
 import pickle
 
 from hypothesis import strategies as st
@@ -114,6 +115,12 @@ def freeze_val(v):
         return ("l", type(v).__name__, tuple(freeze_val(x) for x in v))
     if isinstance(v, (set, frozenset)):
         return ("s", frozenset(freeze_val(x) for x in v))
+    if isinstance(v, numbers.Number) and not isinstance(v, bool):
+        # 0 == 0.0 == np.int64(0) are the same dict key in Python; keep them the same here
+        try:
+            return ("v", "num", int(v) if float(v).is_integer() else float(v))
+        except (TypeError, ValueError, OverflowError):
+            return ("v", "num", repr(v))
     try:
         hash(v)
         return ("v", type(v).__name__, v)
